@@ -91,7 +91,7 @@ def route_families():
 
 
 def shards(tier, seed):
-    return [("product1",), ("product2", 0), ("product2", 1), ("product2", 2), ("product2", 3), ("diag",), ("seps",), ("autoslot",), ("edits",), ("tcp",), ("drivers",)]
+    return [("product1",), ("product2", 0), ("product2", 1), ("product2", 2), ("product2", 3), ("diag",), ("seps",), ("autoslot",), ("edits",), ("tcp",), ("drivers",), ("history",)]
 
 
 def describe(tier, seed):
@@ -227,8 +227,39 @@ def run_shard(shard, tier, seed):
                         path += "/" + seg
                     expect_invalid(rep, path, False, "tcp-port")
                     expect_invalid(rep, path, True, "tcp-port")
+                for bad in ("1:2", ":44818", "44818:", "44:818", "1:2:3", ":"):
+                    path = host + ":" + bad
+                    for seg in segs:
+                        path += "/" + seg
+                    expect_invalid(rep, path, False, "extra-colon")
                 for good in (1, 2, 80, 2222, 44818, 65534):
                     expect_valid(rep, mk(host, good, segs, ["/"] * len(segs)), host, good, segs, False, "tcp-port-valid")
+    elif k == "history":
+        # the route of a string must not depend on what earlier callers did with earlier results
+        import pycomm3
+        from pycomm3.cip_driver import parse_connection_path
+
+        probes = [(h, t, segs, auto) for h in HOSTS[:2] for t in (None, 2222) for auto in (False, True)
+                  for segs in ([], ["3"], ["bp", "0"], ["bp", "1", "enet", "10.11.12.13"]) if auto or len(segs) != 1]
+        for mutate in ("pop", "clear", "append", "driver-pop"):
+            for host, tcp, segs, auto in probes:
+                path = mk(host, tcp, segs, ["/"] * len(segs))
+                try:
+                    if mutate == "driver-pop":
+                        d = (pycomm3.LogixDriver if auto else pycomm3.CIPDriver)(path)
+                        if d._cfg["cip_path"]:
+                            d._cfg["cip_path"].pop(-1)  # what the Micro800 initialisation does
+                    else:
+                        r = parse_connection_path(path, auto)[2]
+                        if mutate == "pop" and r:
+                            r.pop()
+                        elif mutate == "clear":
+                            r.clear()
+                        elif mutate == "append":
+                            r.append(r[0] if r else None)
+                except Exception:  # noqa
+                    pass
+                expect_valid(rep, path, host, tcp, segs, auto, f"history/{mutate}")
     elif k == "drivers":
         import pycomm3
         from pycomm3.cip import PADDED_EPATH
